@@ -58,18 +58,35 @@ def strip_lean_comments(text):
     return "".join(out)
 
 
-def lean_files():
-    res = [os.path.join(LEAN, "Driver.lean")]
-    for root, _, files in os.walk(os.path.join(LEAN, "Strophe")):
-        for f in files:
-            if f.endswith(".lean"):
-                res.append(os.path.join(root, f))
-    return sorted(res)
+def lean_files(roots=None):
+    """The Lean files a check depends on: the import closure (inside this project) of the given
+    module names; all files when roots is None."""
+    if roots is None:
+        res = [os.path.join(LEAN, "Driver.lean")]
+        for root, _, files in os.walk(os.path.join(LEAN, "Strophe")):
+            for f in files:
+                if f.endswith(".lean"):
+                    res.append(os.path.join(root, f))
+        return sorted(res)
+    seen = {}
+    todo = list(roots)
+    while todo:
+        mod = todo.pop()
+        if mod in seen:
+            continue
+        path = os.path.join(LEAN, *mod.split(".")) + ".lean"
+        if not os.path.exists(path):
+            continue
+        seen[mod] = path
+        with open(path, encoding="utf-8") as fh:
+            for m in re.finditer(r"^import\s+(Strophe\.[\w.]+)", fh.read(), re.M):
+                todo.append(m.group(1))
+    return sorted(seen.values())
 
 
-def audit_tokens():
+def audit_tokens(roots=None):
     hits = []
-    for f in lean_files():
+    for f in lean_files(roots):
         with open(f, encoding="utf-8") as fh:
             text = strip_lean_comments(fh.read())
         # string literals may legitimately contain words; drop them
@@ -404,7 +421,8 @@ def main():
     if not ok_props:
         broken = failing_theorems(pid, log_props)
         proof_problems.append("lake build Strophe.Props.%s failed: %s" % (pid, "; ".join(broken) or log_props[-800:]))
-    tok_hits = audit_tokens()
+    drv_mod = "Strophe.Drv." + prop.ENGINE[0].upper() + prop.ENGINE[1:]
+    tok_hits = audit_tokens(["Strophe.Props." + pid, drv_mod])
     if tok_hits:
         proof_problems.append("forbidden tokens: " + "; ".join(tok_hits[:10]))
     axioms_seen = set()
@@ -453,7 +471,7 @@ def main():
                 extras += [[]] * (len(case.ops) - len(extras))
                 l_cases.append(Case(prop.lean_input(case.ops, extras), case.origin, nout=len(case.ops)))
         l_results = run_side([build.drv_path(), prop.ENGINE], l_cases, stateful, timeout)
-    else:
+    elif not ok_drv:
         proof_problems.append("model driver does not build: " + log_drv[-800:])
 
     evaluations = 0
